@@ -101,9 +101,11 @@ def _worker_loop(mod, seed, tier, w, nworkers, start, stop_at, max_index, wfd, j
     os.makedirs(ctx.tmpdir, exist_ok=True)
     os.chdir(ctx.tmpdir)
     i = start
+    nrun = 0
     while i < max_index and time.time() < stop_at:
         struct.pack_into("<qqd", journal, 0, i, -1, time.time())
         try:
+            t_run = time.time()
             case = mod.generate(run_rng(seed, mod.ID, i), tier, i)
             c0 = seam_counters()
             res = mod.execute(case, ctx)
@@ -111,7 +113,9 @@ def _worker_loop(mod, seed, tier, w, nworkers, start, stop_at, max_index, wfd, j
             res["index"] = i
             if res.get("viols") or i < 3 * nworkers:
                 res["case"] = case
-            gc.collect()        # simulations caught in reference cycles would otherwise pile up across the runs of a worker (thousands of guard-page mappings)
+            nrun += 1
+            if nrun % 64 == 0 or time.time() - t_run > 0.2:
+                gc.collect()    # simulations caught in reference cycles would otherwise pile up across the runs of a worker (thousands of guard-page mappings)
         except BaseException as e:  # harness exception: reported apart from violations
             if isinstance(e, (KeyboardInterrupt, SystemExit)):
                 raise
